@@ -336,6 +336,69 @@ def gen_roundtrip_programs(r, n, big=0.03):
     return progs
 
 
+def gen_coexist_programs(r, n):
+    """C16: the SAME bytes under several algorithms, through mixed entry points and flavours; every
+    address must be the digest under the algorithm asked for (whatever the cache already holds), all
+    copies readable, and removing one algorithm's copy leaves the others."""
+    progs = []
+    for i in range(n):
+        ids = G.Ids()
+        ops, expect, after = [], [], []
+        d = G.data(r, big=0)
+        algos = r.sample(L.ALL_ALGOS, r.randrange(2, len(L.ALL_ALGOS) + 1))
+        if r.chance(0.7) and "sha256" in algos:          # the default algorithm first, the common history
+            algos.remove("sha256"); algos.insert(0, "sha256")
+        for algo in algos:
+            fl = r.pick("sa")
+            key = G.key(r)
+            mode = r.randrange(4)
+            if mode == 0:
+                w = [w_oneshot(fl, algo, key, d)]
+            elif mode == 1:
+                w = [f"write_hash {fl} c0 {algo} {hx(d)}"]; key = None
+            elif mode == 2:
+                _, w = w_stream(ids, fl, key, d, G.chunking(r, d), algo=algo)
+            else:
+                _, w = w_stream(ids, fl, None, d, G.chunking(r, d), algo=algo, size=len(d)); key = None
+            ops += w
+            widx = len(ops) - 1
+            reads = []
+            rf = r.pick("sa")
+            ops.append(f"read_hash {rf} c0 {sri_tok(algo, d)}"); reads.append(len(ops) - 1)
+            if key is not None:
+                ops.append(f"read {rf} c0 {hx(key)}"); reads.append(len(ops) - 1)
+            expect.append((widx, algo, d, reads, key))
+        gone = r.pick(algos)
+        ops.append(f"remove_hash {r.pick('sa')} c0 {sri_tok(gone, d)}")
+        for algo in algos:
+            rf = r.pick("sa")
+            ops.append(f"read_hash {rf} c0 {sri_tok(algo, d)}")
+            after.append((len(ops) - 1, algo, None if algo == gone else d))
+            ops.append(f"exists {rf} c0 {sri_tok(algo, d)}")
+            after.append((len(ops) - 1, algo, "absent" if algo == gone else "present"))
+        ops.append("dump c0/content-v2")
+        progs.append(Program(f"coexist{i}", ops, tags={"expect": expect, "after": after}))
+    return progs
+
+
+def mon_coexist(rr):
+    out = []
+    for idx, algo, want in rr.prog.tags.get("after", []):
+        res = toks(rr.impl[idx])
+        op = rr.prog.ops[idx].split(" ")
+        sig = {"op": op[0], "api": op[1], "algo": algo}
+        if want == "present" or want == "absent":
+            if res[0] != "ok" or (res[1] == "true") != (want == "present"):
+                out.append(Failure("coexist_exists", idx, f"exists({algo}) after removing another algorithm's copy -> {' '.join(res[:2])}, want {want}", sig=sig))
+        elif want is None:
+            if res[0] == "ok":
+                out.append(Failure("removed_copy_readable", idx, f"read_hash({algo}) after remove_hash of that address -> ok", sig=sig))
+        else:
+            if res[0] != "ok" or unhx(res[1]) != want:
+                out.append(Failure("coexist_lost", idx, f"read_hash({algo}) after removing ANOTHER algorithm's copy -> {' '.join(res[:3])[:60]}", sig=sig))
+    return out
+
+
 def mon_roundtrip(rr):
     out = []
     # later writes to the same key supersede earlier ones: only judge reads issued before the next write of that key
@@ -756,6 +819,13 @@ def gen_metadata_programs(r, n):
         fl = r.pick("sa")
         mode = r.pick(["oneshot", "stream_default", "stream_opts", "index_insert"])
         exp = {"key": key, "sri": L.sri_of(algo, d), "time": None, "size": len(d), "json": None, "raw": None}
+        # sometimes the key already carries an older entry with other attachments: what comes back (from
+        # lookups AND from the listing) must be the new write's, field by field
+        prior = []
+        if r.chance(0.35):
+            pd = G.data(r, r.pick([1, 9, 200])) + b"-old"
+            _, prior = w_stream(ids, r.pick("sa"), key, pd, [pd], algo=r.pick(L.ALGOS), time=r.pick([5, 2**70]),
+                                meta={"old": [1, 2, {"x": None}]}, raw=b"old raw")
         if mode == "oneshot":
             ops = [w_oneshot(fl, algo, key, d)]
         elif mode == "stream_default":
@@ -766,8 +836,19 @@ def gen_metadata_programs(r, n):
             raw = r.pick([None, b"", bytes(range(256)), r.randbytes(40), b"\x00\xff"])
             sz = r.pick([None, len(d)])
             chunks = G.chunking(r, d) if sz is None else ([d] if d else [])
-            _, ops = w_stream(ids, fl, key, d, chunks, algo=algo, size=sz, time=tm, meta=md, raw=raw)
+            # a supplied integrity is part of what must come back unchanged: single hash, or the data's
+            # hash plus a weaker algorithm's hash (ssri sorts by strength; the writer's algorithm stays first)
+            decl = None
+            if algo in L.ALGOS and r.chance(0.4):
+                weaker = [a for a in ("sha384", "sha256", "sha1") if L.ALL_ALGOS.index(a) > 0 and
+                          ["sha512", "sha384", "sha256", "sha1"].index(a) > ["sha512", "sha384", "sha256", "sha1"].index(algo)]
+                decl = L.sri_of(algo, d)
+                if weaker and r.chance(0.6):
+                    decl = decl + " " + L.sri_of(weaker[0], d)
+            _, ops = w_stream(ids, fl, key, d, chunks, algo=algo, size=sz, sri=decl, time=tm, meta=md, raw=raw)
             exp.update(time=tm, json=(None if md is NOMETA else md), raw=raw)
+            if decl:
+                exp["sri"] = decl
         else:
             tm = r.pick([None, 0, 2**128 - 1, 99])
             md = G.jvalue(r) if r.chance(0.8) else NOMETA
@@ -777,11 +858,12 @@ def gen_metadata_programs(r, n):
                    f"size={sz if sz is not None else '-'} meta={hx(L.render_json(md).encode()) if md is not NOMETA else '-'} "
                    f"raw={hx(raw) if raw is not None else '-'}"]
             exp.update(time=tm, json=(None if md is NOMETA else md), raw=raw, size=(sz if sz is not None else 0))
+        ops = prior + ops
         w = len(ops) - 1
         for f2 in "sa":
             ops.append(f"metadata {f2} c0 {hx(key)}")
         ops.append("list c0")
-        progs.append(Program(f"meta{i}", ops, tags={"exp": exp, "write": w, "mode": mode}))
+        progs.append(Program(f"meta{i}", ops, tags={"exp": exp, "write": w, "mode": mode, "variety": ("prior", bool(prior))}))
     # deep nesting around serde_json's recursion limit (parse: 128 levels; serialise: unlimited)
     for depth in (100, 120, 125, 126, 127):
         ids = G.Ids()
@@ -835,8 +917,8 @@ def mon_metadata(rr):
             continue
         if m["key"] != exp["key"]:
             out.append(Failure("key_changed", j, "key differs", sig=sig))
-        if m["sri"] != exp["sri"]:
-            out.append(Failure("integrity_changed", j, f"integrity {m['sri']} != {exp['sri']}", sig=sig))
+        if L.sri_parse(m["sri"]) != L.sri_parse(exp["sri"]):
+            out.append(Failure("integrity_changed", j, f"integrity {m['sri'][:60]} != {exp['sri'][:60]}", sig=sig))
         if exp["time"] is not None:
             if m["time"] != exp["time"]:
                 out.append(Failure("time_changed", j, f"time {m['time']} != {exp['time']}", sig=sig))
@@ -1140,7 +1222,21 @@ def gen_linkto_programs(r, n):
         fl = r.pick("sa")
         ops = [f"put tgt/{name} {hx(d)}"]
         tags = {"data": d, "key": key, "form": form}
-        mode = r.pick(["oneshot", "oneshot_hash", "partial", "opts_bad_size", "opts_bad_sri", "preexisting"])
+        mode = r.pick(["oneshot", "oneshot_hash", "partial", "opts_bad_size", "opts_bad_sri", "preexisting", "partial_cd"])
+        if mode == "partial_cd":
+            # the handle is opened (cache given as an absolute path), then the process' working directory
+            # changes before the commit: a relative target still means the file named at open time
+            ops.append("mkdir elsewhere")
+            if r.chance(0.5):
+                ops.append(f"put elsewhere/tgt/{name} {hx(d + b' (a different file of the same relative name)')}")
+            l = ids.new("L")
+            if r.chance(0.5):
+                ops.append(f"lopen_auto_abs {fl} c0 {l} {hx(key)} {tgt}")
+            else:
+                ops.append(f"lopen_abs {fl} c0 {l} {hx(key)} {tgt} algo=sha256 size=- sri=-")
+            for b in r.pick([[1], [3, 5], []]):
+                ops.append(f"lread {l} {b}")
+            ops.append(f"lcommit_cd {l} elsewhere")
         if mode == "preexisting":
             ops.append(w_oneshot("s", "sha256", b"regular", d))
         if mode in ("oneshot", "preexisting"):
@@ -1158,7 +1254,7 @@ def gen_linkto_programs(r, n):
             kk = hx(key) if r.chance(0.6) else "-"
             ops.append(f"lopen {fl} c0 {l} {kk} {tgt} algo=sha256 size={len(d) + 1} sri=-")
             ops.append(f"lcommit {l}")
-        else:
+        elif mode == "opts_bad_sri":
             l = ids.new("L")
             kk = hx(key) if r.chance(0.6) else "-"
             ops.append(f"lopen {fl} c0 {l} {kk} {tgt} algo=sha256 size=- sri={hx(L.sri_of('sha256', d + b'x').encode())}")
@@ -1252,12 +1348,24 @@ def gen_confine_programs(r, n):
         keys = r.sample(G.KEYS_HOSTILE, 4)
         ops = ["put sentinel/a x73656e74696e656c", "put tgt/keep x6b656570", "dump out", "dump tgt", "dump sentinel"]
         vals = {}
-        for k in keys:
-            d = b"value of " + k[:20]
+        algos = {}
+        for ki, k in enumerate(keys):
+            d = b"value of " + k[:20] + b"#%d" % ki
             vals[k] = d
-            w, _ = random_write(r, ids, k, d)
+            w, algos[k] = random_write(r, ids, k, d)
             ops += w
         marks = []
+        # sometimes one entry's content is damaged first (torn, flipped, replaced, gone): the read-only
+        # calls then fail for it — and must still change nothing (no "self-healing" deletions)
+        damaged = None
+        if r.chance(0.5):
+            damaged = keys[3]
+            cp = content_path(algos[damaged], vals[damaged])
+            dv = vals[damaged]
+            ops.append(r.pick([f"truncate {cp} {r.randrange(len(dv))}",
+                               f"put {cp} {hx(bytes([dv[0] ^ 1]) + dv[1:])}",
+                               f"put {cp} {hx(dv + b'extra')}",
+                               f"del {cp}"]))
         ops.append("dump c0"); 
         for k in keys:
             for fl in "sa":
@@ -1273,7 +1381,8 @@ def gen_confine_programs(r, n):
         ops.append(f"remove {r.pick('sa')} c0 {hx(keys[1])}")
         ops.append(f"remove_fully {r.pick('sa')} c0 {hx(keys[2])}")
         ops += ["dump out", "dump tgt", "dump sentinel"]
-        progs.append(Program(f"confine{i}", ops, tags={"keys": keys, "vals": vals, "marks": marks, "ro_end": ro_end}))
+        progs.append(Program(f"confine{i}", ops, tags={"keys": keys, "vals": vals, "marks": marks, "ro_end": ro_end,
+                                                       "damaged": damaged, "variety": ("damaged", damaged is not None)}))
     return progs
 
 
@@ -1298,6 +1407,8 @@ def mon_confine(rr):
     # keys are opaque and independent: each key reads back its own value
     for i, k in t["marks"]:
         res = toks(rr.impl[i])
+        if k == t.get("damaged"):
+            continue          # its content was damaged on purpose: what reads of it answer is C01's business
         if res[0] != "ok" or unhx(res[1]) != t["vals"][k]:
             out.append(Failure("keys_not_independent", i, f"key {k[:20]!r} does not read back its own value", sig={"op": "read"}))
     return out
